@@ -667,6 +667,9 @@ func (comp *Compiler) Compile(stmts []*gripql.GraphStatement, opts *gdbi.Compile
 			if lastType == gdbi.NoData {
 				return &Pipeline{}, fmt.Errorf(`"as" statement is not valid at the beginning of a traversal`)
 			}
+			if lastType != gdbi.VertexData && lastType != gdbi.EdgeData {
+				return &Pipeline{}, fmt.Errorf(`"as" statement is only valid for edge or vertex types not: %s`, lastType.String())
+			}
 			if stmt.As == "" {
 				return &Pipeline{}, fmt.Errorf(`"as" statement cannot have an empty name`)
 			}
